@@ -114,7 +114,7 @@ def doPat (sp : List Char) (fields : List String) : Cur × String :=
   match fields with
   | [toks, brs] =>
     let tokens := (toks.splitOn " ").filter (· ≠ "")
-    match parseTree (tokens.length + 1) tokens with
+    match parseTree (2 * tokens.length + 4) tokens with
     | some (tree, []) =>
       let backrefs := ((brs.splitOn ",").filterMap String.toNat?)
       let built := build tree backrefs
